@@ -15,7 +15,7 @@ pub fn mon() -> Mon {
         run,
         finish,
         replay,
-        rule: "Receive corpus: every base packet (all library encoders, forged requests/responses for every command, all message types, maximum-length packets), each of bytes 0-12 through all 256 values (PEC recomputed or not), every command x direction x data length, every completion code, every Set-EID operation and vendor selector 0..255, every control-header and type byte, every truncation point of every base packet and empty input, every total length 0..263 and 508..519 per type, zero-padded packets, plus a seeded random mixture of valid, mutated and random strings. Each input goes to decode_packet, get_length and process_packet (response buffer 64..300 bytes) on long-lived contexts with random valid configurations (0-16 vendor sets of format 0/1, <= 30 types) under the panic trap with overflow checks on. Any panic is a refuting event keyed by (API, byte-determined input class, panic kind). Non-trivial = every input (each is a real execution of all three entry points); distinct = distinct input byte strings.",
+        rule: "Receive corpus: every base packet (all library encoders, forged requests/responses for every command, all message types, maximum-length packets), each of bytes 0-12 through all 256 values (PEC recomputed or not), every command x direction x data length, every completion code, every Set-EID operation and vendor selector 0..255, every control-header and type byte, every truncation point of every base packet and empty input, every total length 0..263 and 508..519 per type, zero-padded packets, plus a seeded random mixture of valid, mutated and random strings, plus *storms* (600 consecutive inputs of one kind - assignments, queries, unsupported commands, responses, vendor messages, truncated packets, the same with a wrong PEC every time - on a fresh context). Each input goes to decode_packet, get_length and process_packet (response buffer 64..300 bytes) on long-lived contexts with random valid configurations (0-16 vendor sets of format 0/1, <= 30 types) under the panic trap with overflow checks on. Any panic is a refuting event keyed by (API, byte-determined input class, panic kind). Non-trivial = every input (each is a real execution of all three entry points); distinct = distinct input byte strings.",
         assumptions: &[
             "configurations with a vendor format >= 2 or more than 30 message types and response buffers < 64 bytes are not generated",
             "a process_packet panic that is the same panic decode_packet raises on that input is reported once, under decode_packet",
@@ -107,13 +107,57 @@ fn run(cfg: &RunCfg) -> Report {
                 let mut k = 0usize;
                 for_each_input(cfg, "c10", &plan, &mut |x, rng| {
                     k = (k + 1) % 3;
-                    let rblen = 64 + rng.below(237) as usize;
+                    let rblen = if rng.chance(1, 4) { 64 } else { 64 + rng.below(237) as usize };
                     check(ctxs[k], &cfgs[k], x, rblen, &mut rep);
                 });
             })
         })
     });
-    let _ = Rng::new(0);
+    // storms: 600 consecutive inputs of ONE kind on a fresh context (a counter of consecutive
+    // failures / requests / responses that lives in a byte wraps after 256 of them)
+    if !small || cfg.shard == 0 {
+        let mut rng = cfg.rng("c10-storm");
+        let kinds = 12u64;
+        let reps = if small { 1 } else { cfg.pick(2, 20) };
+        for rep_i in 0..reps {
+            for kind in 0..kinds {
+                if (kind + rep_i * kinds) % cfg.nshards as u64 != cfg.shard as u64 {
+                    continue;
+                }
+                let c = CtxCfg::random_maybe_empty(&mut rng, false, 6);
+                with_ctx(&c, |ctx| {
+                    let n = if small { 280 } else { 600 };
+                    for i in 0..n {
+                        let mut x = match kind {
+                            0 | 1 => crate::mon::hist::set_eid_request(&mut rng, c.addr),
+                            2 => crate::refmodel::forge::ctrl_request(c.addr & 0x7F, rng.byte() & 0x7F, i as u8 & 0x1F, false, 0x02, &[]),
+                            3 => crate::refmodel::forge::ctrl_request(c.addr & 0x7F, rng.byte() & 0x7F, i as u8 & 0x1F, false, 0x06, &[rng.byte()]),
+                            4 => crate::refmodel::forge::ctrl_request(c.addr & 0x7F, rng.byte() & 0x7F, 0, false, rng.range(7, 255) as u8, &[]),
+                            5 => crate::refmodel::forge::ctrl_response(c.addr & 0x7F, rng.byte() & 0x7F, 0, 0x02, rng.below(6) as u8, &[1, 2, 3]),
+                            6 => forged_vendor(&mut rng),
+                            7 => gen_valid(&mut rng),
+                            8 => {
+                                let mut p = gen_valid(&mut rng);
+                                let k = rng.below(p.len() as u64) as usize;
+                                p.truncate(k);
+                                p
+                            }
+                            9 => random_string(&mut rng, 20),
+                            10 => crate::refmodel::forge::ctrl_request(c.addr & 0x7F, 0x11, 1, false, 0x01, &[rng.byte(), rng.byte()]),
+                            _ => gen_valid(&mut rng),
+                        };
+                        // kinds 1 and 11: the same kind with a wrong PEC every time
+                        if (kind == 1 || kind == 11) && !x.is_empty() {
+                            let l = x.len();
+                            x[l - 1] ^= 1 + rng.below(255) as u8;
+                        }
+                        check(ctx, &c, &x, 64 + (i % 3) * 50, &mut rep);
+                    }
+                });
+                rep.class("storm-of-one-input-kind");
+            }
+        }
+    }
     rep
 }
 
